@@ -95,6 +95,8 @@ ENUMERATORS = ['dfa_algorithms.dfa_words_up_to_n', 'nfa_algorithms.nfa_words_up_
 
 
 def check_C02(ctx, rep):
+    small_models2.check_cfg_words(ctx, rep, ctx.prog.func('cfg_algorithms.cfg_words_up_to_n'))
+    rep.clauses_decided.append('cfg_words_up_to_n returns exactly the words up to length n that the start variable derives on five model grammars in Chomsky normal form for n = 0..4, among them one where a variable other than the leftmost must be expanded (M18, finite model)')
     rep.clauses_decided += ['no enumerated word is longer than n and every level 0..n can be contributed, for n = 0..4 including n = 0 and n = 1 (R-BOUND, abstract interpretation over word lengths)',
                             'regular-expression enumerator: induction step per constructor and well-founded star recursion (R-BOUND.regexp)',
                             'the generic generator sends each kind to its own enumerator; sibling dispatch tables agree (R-DISPATCH b)',
